@@ -18,53 +18,202 @@ Proof.
   assert (0 <= Z.ldiff a (Z.land a b)) by (apply Z.ldiff_nonneg; left; exact Ha). lia.
 Qed.
 
-(* ---- impl_rgb_color! ---- *)
-Lemma src_rgb_MAX_eq bits : src_rgb_MAX_R bits = chan_max bits /\ src_rgb_MAX_G bits = chan_max bits /\ src_rgb_MAX_B bits = chan_max bits.
-Proof. unfold src_rgb_MAX_R, src_rgb_MAX_G, src_rgb_MAX_B, chan_max, as_u8, Casts.cast_usize_u8, wrap_u8, wrap_unsigned. repeat split. Qed.
-
+(* ---- impl_rgb_color!: one instance per storage type (u8, u16, u32) ---- *)
 Lemma chan_max_range bits : 0 <= chan_max bits <= 255.
 Proof. unfold chan_max, as_u8. pose proof (Z.mod_pos_bound (Z.shiftl 1 bits - 1) 256). lia. Qed.
+
+Lemma shl_usize_1 bits : 0 <= bits < 64 -> Casts.shl_usize 1 bits = Z.shiftl 1 bits.
+Proof.
+  intros H. apply Casts.shl_usize_id. rewrite Z.shiftl_mul_pow2 by lia. unfold min_usize, max_usize.
+  assert (2 ^ bits <= 2 ^ 63) by (apply Z.pow_le_mono_r; lia). change (2 ^ 63) with 9223372036854775808 in *. lia.
+Qed.
 
 (* a row whose channel widths and positions are the macro's arguments *)
 Definition row_is (t : crow) (rb gb bb rp gp bp : Z) : Prop :=
   rbits t = rb /\ gbits t = gb /\ bbits t = bb /\ rpos t = rp /\ gpos t = gp /\ bpos t = bp.
+Definition bits_ok (t : crow) : Prop := 0 <= rbits t < 64 /\ 0 <= gbits t < 64 /\ 0 <= bbits t < 64.
+(* the three channel masks fit the storage type: no bit is shifted out by `<<` *)
+Definition fits (t : crow) (maxv : Z) : Prop :=
+  0 <= rpos t /\ 0 <= gpos t /\ 0 <= bpos t /\ r_mask t <= maxv /\ g_mask t <= maxv /\ b_mask t <= maxv.
 
-Lemma src_rgb_new_eq t rb gb bb rp gp bp r g b :
-  row_is t rb gb bb rp gp bp -> 0 <= r <= 255 -> 0 <= g <= 255 -> 0 <= b <= 255 ->
-  src_rgb_new rb gb bb rp gp bp r g b = rgb_new t r g b.
+Lemma shiftl_land_le x m p : 0 <= x -> 0 <= m -> 0 <= p -> 0 <= Z.shiftl (Z.land x m) p <= Z.shiftl m p.
 Proof.
-  intros (Hr & Hg & Hb & Pr & Pg & Pb) Rr Rg Rb. unfold src_rgb_new, rgb_new, max_r, max_g, max_b. cbv zeta.
-  destruct (src_rgb_MAX_eq rb) as (E1 & _ & _). destruct (src_rgb_MAX_eq gb) as (_ & E2 & _). destruct (src_rgb_MAX_eq bb) as (_ & _ & E3).
-  rewrite E1, E2, E3, Hr, Hg, Hb, Pr, Pg, Pb.
-  pose proof (land_bound r (chan_max rb)). pose proof (land_bound g (chan_max gb)). pose proof (land_bound b (chan_max bb)).
-  rewrite !cast_u8_u32_id by lia. reflexivity.
-Qed.
-
-Lemma src_rgb_r_eq t rb gb bb rp gp bp c : row_is t rb gb bb rp gp bp -> src_rgb_r rb rp c = get_r t c.
-Proof.
-  intros (Hr & Hg & Hb & Pr & Pg & Pb). unfold src_rgb_r, get_r, max_r. destruct (src_rgb_MAX_eq rb) as (E1 & _ & _).
-  rewrite E1, Hr, Pr. unfold Casts.cast_u32_u8, wrap_u8, wrap_unsigned, as_u8. reflexivity.
-Qed.
-Lemma src_rgb_g_eq t rb gb bb rp gp bp c : row_is t rb gb bb rp gp bp -> src_rgb_g gb gp c = get_g t c.
-Proof.
-  intros (Hr & Hg & Hb & Pr & Pg & Pb). unfold src_rgb_g, get_g, max_g. destruct (src_rgb_MAX_eq gb) as (_ & E2 & _).
-  rewrite E2, Hg, Pg. unfold Casts.cast_u32_u8, wrap_u8, wrap_unsigned, as_u8. reflexivity.
-Qed.
-Lemma src_rgb_b_eq t rb gb bb rp gp bp c : row_is t rb gb bb rp gp bp -> src_rgb_b bb bp c = get_b t c.
-Proof.
-  intros (Hr & Hg & Hb & Pr & Pg & Pb). unfold src_rgb_b, get_b, max_b. destruct (src_rgb_MAX_eq bb) as (_ & _ & E3).
-  rewrite E3, Hb, Pb. unfold Casts.cast_u32_u8, wrap_u8, wrap_unsigned, as_u8. reflexivity.
+  intros Hx Hm Hp. rewrite !Z.shiftl_mul_pow2 by lia.
+  assert (0 <= Z.land x m <= m) by (rewrite Z.land_comm; apply land_bound; exact Hm).
+  assert (0 < 2 ^ p) by (apply Z.pow_pos_nonneg; lia). nia.
 Qed.
 
-Lemma src_rgb_mask_eq t rb gb bb rp gp bp :
-  row_is t rb gb bb rp gp bp -> src_rgb_RGB_MASK rb gb bb rp gp bp = rgb_mask t.
+(* ---- storage type u8 ---- *)
+Lemma src_rgb8_MAX_eq bits : 0 <= bits < 64 ->
+  src_rgb8_MAX_R bits = chan_max bits /\ src_rgb8_MAX_G bits = chan_max bits /\ src_rgb8_MAX_B bits = chan_max bits.
 Proof.
-  intros (Hr & Hg & Hb & Pr & Pg & Pb).
-  unfold src_rgb_RGB_MASK, src_rgb_R_MASK, src_rgb_G_MASK, src_rgb_B_MASK, rgb_mask, r_mask, g_mask, b_mask, max_r, max_g, max_b.
-  destruct (src_rgb_MAX_eq rb) as (E1 & _ & _). destruct (src_rgb_MAX_eq gb) as (_ & E2 & _). destruct (src_rgb_MAX_eq bb) as (_ & _ & E3).
-  rewrite E1, E2, E3, Hr, Hg, Hb, Pr, Pg, Pb.
-  pose proof (chan_max_range rb). pose proof (chan_max_range gb). pose proof (chan_max_range bb).
-  rewrite !cast_u8_u32_id by lia. reflexivity.
+  intros H. unfold src_rgb8_MAX_R, src_rgb8_MAX_G, src_rgb8_MAX_B, chan_max, as_u8, Casts.cast_usize_u8, wrap_u8, wrap_unsigned.
+  rewrite shl_usize_1 by exact H. repeat split.
+Qed.
+
+Lemma src_rgb8_new_eq t rb gb bb rp gp bp r g b :
+  row_is t rb gb bb rp gp bp -> bits_ok t -> fits t 255 -> 0 <= r <= 255 -> 0 <= g <= 255 -> 0 <= b <= 255 ->
+  src_rgb8_new rb gb bb rp gp bp r g b = rgb_new t r g b.
+Proof.
+  intros (Hr & Hg & Hb & Pr & Pg & Pb) (Br & Bg & Bb) (F1 & F2 & F3 & F4 & F5 & F6) Rr Rg Rb.
+  unfold src_rgb8_new, rgb_new. cbv zeta. unfold r_mask, g_mask, b_mask, max_r, max_g, max_b in *.
+  subst rb gb bb rp gp bp.
+  destruct (src_rgb8_MAX_eq (rbits t) Br) as (E1 & _ & _). destruct (src_rgb8_MAX_eq (gbits t) Bg) as (_ & E2 & _).
+  destruct (src_rgb8_MAX_eq (bbits t) Bb) as (_ & _ & E3). rewrite E1, E2, E3.
+  pose proof (chan_max_range (rbits t)). pose proof (chan_max_range (gbits t)). pose proof (chan_max_range (bbits t)).
+  pose proof (shiftl_land_le r (chan_max (rbits t)) (rpos t) ltac:(lia) ltac:(lia) F1).
+  pose proof (shiftl_land_le g (chan_max (gbits t)) (gpos t) ltac:(lia) ltac:(lia) F2).
+  pose proof (shiftl_land_le b (chan_max (bbits t)) (bpos t) ltac:(lia) ltac:(lia) F3).
+  
+  rewrite !Casts.shl_u8_id by (unfold min_u8, max_u8; lia). reflexivity.
+Qed.
+
+Lemma src_rgb8_r_eq t rb gb bb rp gp bp c : row_is t rb gb bb rp gp bp -> bits_ok t -> 0 <= rpos t -> 0 <= c <= 255 -> src_rgb8_r rb rp c = get_r t c.
+Proof.
+  intros (Hr & Hg & Hb & Pr & Pg & Pb) (Br & Bg & Bb) P0 Hc . unfold src_rgb8_r, get_r, max_r. subst rb rp.
+  destruct (src_rgb8_MAX_eq (rbits t) Br) as (E1 & _ & _). rewrite E1. set (P := rpos t) in *. unfold as_u8. rewrite (Z.mod_small (Z.shiftr c _) 256) by (split; [apply Z.shiftr_nonneg; lia | assert (Z.shiftr c P <= c) by (rewrite Z.shiftr_div_pow2 by lia; apply Z.div_le_upper_bound; [apply Z.pow_pos_nonneg; lia | assert (1 <= 2 ^ P) by (apply (Z.pow_le_mono_r 2 0 P); lia); nia]); lia]). reflexivity.
+Qed.
+Lemma src_rgb8_g_eq t rb gb bb rp gp bp c : row_is t rb gb bb rp gp bp -> bits_ok t -> 0 <= gpos t -> 0 <= c <= 255 -> src_rgb8_g gb gp c = get_g t c.
+Proof.
+  intros (Hr & Hg & Hb & Pr & Pg & Pb) (Br & Bg & Bb) P0 Hc . unfold src_rgb8_g, get_g, max_g. subst gb gp.
+  destruct (src_rgb8_MAX_eq (gbits t) Bg) as (_ & E2 & _). rewrite E2. set (P := gpos t) in *. unfold as_u8. rewrite (Z.mod_small (Z.shiftr c _) 256) by (split; [apply Z.shiftr_nonneg; lia | assert (Z.shiftr c P <= c) by (rewrite Z.shiftr_div_pow2 by lia; apply Z.div_le_upper_bound; [apply Z.pow_pos_nonneg; lia | assert (1 <= 2 ^ P) by (apply (Z.pow_le_mono_r 2 0 P); lia); nia]); lia]). reflexivity.
+Qed.
+Lemma src_rgb8_b_eq t rb gb bb rp gp bp c : row_is t rb gb bb rp gp bp -> bits_ok t -> 0 <= bpos t -> 0 <= c <= 255 -> src_rgb8_b bb bp c = get_b t c.
+Proof.
+  intros (Hr & Hg & Hb & Pr & Pg & Pb) (Br & Bg & Bb) P0 Hc . unfold src_rgb8_b, get_b, max_b. subst bb bp.
+  destruct (src_rgb8_MAX_eq (bbits t) Bb) as (_ & _ & E3). rewrite E3. set (P := bpos t) in *. unfold as_u8. rewrite (Z.mod_small (Z.shiftr c _) 256) by (split; [apply Z.shiftr_nonneg; lia | assert (Z.shiftr c P <= c) by (rewrite Z.shiftr_div_pow2 by lia; apply Z.div_le_upper_bound; [apply Z.pow_pos_nonneg; lia | assert (1 <= 2 ^ P) by (apply (Z.pow_le_mono_r 2 0 P); lia); nia]); lia]). reflexivity.
+Qed.
+
+Lemma src_rgb8_mask_eq t rb gb bb rp gp bp :
+  row_is t rb gb bb rp gp bp -> bits_ok t -> fits t 255 -> src_rgb8_RGB_MASK rb gb bb rp gp bp = rgb_mask t.
+Proof.
+  intros (Hr & Hg & Hb & Pr & Pg & Pb) (Br & Bg & Bb) (F1 & F2 & F3 & F4 & F5 & F6).
+  unfold src_rgb8_RGB_MASK, src_rgb8_R_MASK, src_rgb8_G_MASK, src_rgb8_B_MASK, rgb_mask.
+  unfold r_mask, g_mask, b_mask, max_r, max_g, max_b in *. subst rb gb bb rp gp bp.
+  destruct (src_rgb8_MAX_eq (rbits t) Br) as (E1 & _ & _). destruct (src_rgb8_MAX_eq (gbits t) Bg) as (_ & E2 & _).
+  destruct (src_rgb8_MAX_eq (bbits t) Bb) as (_ & _ & E3). rewrite E1, E2, E3.
+  pose proof (chan_max_range (rbits t)). pose proof (chan_max_range (gbits t)). pose proof (chan_max_range (bbits t)).
+  assert (0 <= Z.shiftl (chan_max (rbits t)) (rpos t)) by (apply Z.shiftl_nonneg; lia).
+  assert (0 <= Z.shiftl (chan_max (gbits t)) (gpos t)) by (apply Z.shiftl_nonneg; lia).
+  assert (0 <= Z.shiftl (chan_max (bbits t)) (bpos t)) by (apply Z.shiftl_nonneg; lia).
+  
+  rewrite !Casts.shl_u8_id by (unfold min_u8, max_u8; lia). reflexivity.
+Qed.
+
+(* ---- storage type u16 ---- *)
+Lemma src_rgb16_MAX_eq bits : 0 <= bits < 64 ->
+  src_rgb16_MAX_R bits = chan_max bits /\ src_rgb16_MAX_G bits = chan_max bits /\ src_rgb16_MAX_B bits = chan_max bits.
+Proof.
+  intros H. unfold src_rgb16_MAX_R, src_rgb16_MAX_G, src_rgb16_MAX_B, chan_max, as_u8, Casts.cast_usize_u8, wrap_u8, wrap_unsigned.
+  rewrite shl_usize_1 by exact H. repeat split.
+Qed.
+
+Lemma src_rgb16_new_eq t rb gb bb rp gp bp r g b :
+  row_is t rb gb bb rp gp bp -> bits_ok t -> fits t 65535 -> 0 <= r <= 255 -> 0 <= g <= 255 -> 0 <= b <= 255 ->
+  src_rgb16_new rb gb bb rp gp bp r g b = rgb_new t r g b.
+Proof.
+  intros (Hr & Hg & Hb & Pr & Pg & Pb) (Br & Bg & Bb) (F1 & F2 & F3 & F4 & F5 & F6) Rr Rg Rb.
+  unfold src_rgb16_new, rgb_new. cbv zeta. unfold r_mask, g_mask, b_mask, max_r, max_g, max_b in *.
+  subst rb gb bb rp gp bp.
+  destruct (src_rgb16_MAX_eq (rbits t) Br) as (E1 & _ & _). destruct (src_rgb16_MAX_eq (gbits t) Bg) as (_ & E2 & _).
+  destruct (src_rgb16_MAX_eq (bbits t) Bb) as (_ & _ & E3). rewrite E1, E2, E3.
+  pose proof (chan_max_range (rbits t)). pose proof (chan_max_range (gbits t)). pose proof (chan_max_range (bbits t)).
+  pose proof (shiftl_land_le r (chan_max (rbits t)) (rpos t) ltac:(lia) ltac:(lia) F1).
+  pose proof (shiftl_land_le g (chan_max (gbits t)) (gpos t) ltac:(lia) ltac:(lia) F2).
+  pose proof (shiftl_land_le b (chan_max (bbits t)) (bpos t) ltac:(lia) ltac:(lia) F3).
+  pose proof (land_bound r (chan_max (rbits t)) ltac:(lia)). pose proof (land_bound g (chan_max (gbits t)) ltac:(lia)). pose proof (land_bound b (chan_max (bbits t)) ltac:(lia)).
+  rewrite !Casts.cast_u8_u16_id by lia.
+  rewrite !Casts.shl_u16_id by (unfold min_u16, max_u16; lia). reflexivity.
+Qed.
+
+Lemma src_rgb16_r_eq t rb gb bb rp gp bp c : row_is t rb gb bb rp gp bp -> bits_ok t -> 0 <= rpos t -> src_rgb16_r rb rp c = get_r t c.
+Proof.
+  intros (Hr & Hg & Hb & Pr & Pg & Pb) (Br & Bg & Bb) P0 . unfold src_rgb16_r, get_r, max_r. subst rb rp.
+  destruct (src_rgb16_MAX_eq (rbits t) Br) as (E1 & _ & _). rewrite E1. set (P := rpos t) in *. unfold Casts.cast_u16_u8, wrap_u8, wrap_unsigned, as_u8. reflexivity.
+Qed.
+Lemma src_rgb16_g_eq t rb gb bb rp gp bp c : row_is t rb gb bb rp gp bp -> bits_ok t -> 0 <= gpos t -> src_rgb16_g gb gp c = get_g t c.
+Proof.
+  intros (Hr & Hg & Hb & Pr & Pg & Pb) (Br & Bg & Bb) P0 . unfold src_rgb16_g, get_g, max_g. subst gb gp.
+  destruct (src_rgb16_MAX_eq (gbits t) Bg) as (_ & E2 & _). rewrite E2. set (P := gpos t) in *. unfold Casts.cast_u16_u8, wrap_u8, wrap_unsigned, as_u8. reflexivity.
+Qed.
+Lemma src_rgb16_b_eq t rb gb bb rp gp bp c : row_is t rb gb bb rp gp bp -> bits_ok t -> 0 <= bpos t -> src_rgb16_b bb bp c = get_b t c.
+Proof.
+  intros (Hr & Hg & Hb & Pr & Pg & Pb) (Br & Bg & Bb) P0 . unfold src_rgb16_b, get_b, max_b. subst bb bp.
+  destruct (src_rgb16_MAX_eq (bbits t) Bb) as (_ & _ & E3). rewrite E3. set (P := bpos t) in *. unfold Casts.cast_u16_u8, wrap_u8, wrap_unsigned, as_u8. reflexivity.
+Qed.
+
+Lemma src_rgb16_mask_eq t rb gb bb rp gp bp :
+  row_is t rb gb bb rp gp bp -> bits_ok t -> fits t 65535 -> src_rgb16_RGB_MASK rb gb bb rp gp bp = rgb_mask t.
+Proof.
+  intros (Hr & Hg & Hb & Pr & Pg & Pb) (Br & Bg & Bb) (F1 & F2 & F3 & F4 & F5 & F6).
+  unfold src_rgb16_RGB_MASK, src_rgb16_R_MASK, src_rgb16_G_MASK, src_rgb16_B_MASK, rgb_mask.
+  unfold r_mask, g_mask, b_mask, max_r, max_g, max_b in *. subst rb gb bb rp gp bp.
+  destruct (src_rgb16_MAX_eq (rbits t) Br) as (E1 & _ & _). destruct (src_rgb16_MAX_eq (gbits t) Bg) as (_ & E2 & _).
+  destruct (src_rgb16_MAX_eq (bbits t) Bb) as (_ & _ & E3). rewrite E1, E2, E3.
+  pose proof (chan_max_range (rbits t)). pose proof (chan_max_range (gbits t)). pose proof (chan_max_range (bbits t)).
+  assert (0 <= Z.shiftl (chan_max (rbits t)) (rpos t)) by (apply Z.shiftl_nonneg; lia).
+  assert (0 <= Z.shiftl (chan_max (gbits t)) (gpos t)) by (apply Z.shiftl_nonneg; lia).
+  assert (0 <= Z.shiftl (chan_max (bbits t)) (bpos t)) by (apply Z.shiftl_nonneg; lia).
+  rewrite !Casts.cast_u8_u16_id by lia.
+  rewrite !Casts.shl_u16_id by (unfold min_u16, max_u16; lia). reflexivity.
+Qed.
+
+(* ---- storage type u32 ---- *)
+Lemma src_rgb32_MAX_eq bits : 0 <= bits < 64 ->
+  src_rgb32_MAX_R bits = chan_max bits /\ src_rgb32_MAX_G bits = chan_max bits /\ src_rgb32_MAX_B bits = chan_max bits.
+Proof.
+  intros H. unfold src_rgb32_MAX_R, src_rgb32_MAX_G, src_rgb32_MAX_B, chan_max, as_u8, Casts.cast_usize_u8, wrap_u8, wrap_unsigned.
+  rewrite shl_usize_1 by exact H. repeat split.
+Qed.
+
+Lemma src_rgb32_new_eq t rb gb bb rp gp bp r g b :
+  row_is t rb gb bb rp gp bp -> bits_ok t -> fits t 4294967295 -> 0 <= r <= 255 -> 0 <= g <= 255 -> 0 <= b <= 255 ->
+  src_rgb32_new rb gb bb rp gp bp r g b = rgb_new t r g b.
+Proof.
+  intros (Hr & Hg & Hb & Pr & Pg & Pb) (Br & Bg & Bb) (F1 & F2 & F3 & F4 & F5 & F6) Rr Rg Rb.
+  unfold src_rgb32_new, rgb_new. cbv zeta. unfold r_mask, g_mask, b_mask, max_r, max_g, max_b in *.
+  subst rb gb bb rp gp bp.
+  destruct (src_rgb32_MAX_eq (rbits t) Br) as (E1 & _ & _). destruct (src_rgb32_MAX_eq (gbits t) Bg) as (_ & E2 & _).
+  destruct (src_rgb32_MAX_eq (bbits t) Bb) as (_ & _ & E3). rewrite E1, E2, E3.
+  pose proof (chan_max_range (rbits t)). pose proof (chan_max_range (gbits t)). pose proof (chan_max_range (bbits t)).
+  pose proof (shiftl_land_le r (chan_max (rbits t)) (rpos t) ltac:(lia) ltac:(lia) F1).
+  pose proof (shiftl_land_le g (chan_max (gbits t)) (gpos t) ltac:(lia) ltac:(lia) F2).
+  pose proof (shiftl_land_le b (chan_max (bbits t)) (bpos t) ltac:(lia) ltac:(lia) F3).
+  pose proof (land_bound r (chan_max (rbits t)) ltac:(lia)). pose proof (land_bound g (chan_max (gbits t)) ltac:(lia)). pose proof (land_bound b (chan_max (bbits t)) ltac:(lia)).
+  rewrite !Casts.cast_u8_u32_id by lia.
+  rewrite !Casts.shl_u32_id by (unfold min_u32, max_u32; lia). reflexivity.
+Qed.
+
+Lemma src_rgb32_r_eq t rb gb bb rp gp bp c : row_is t rb gb bb rp gp bp -> bits_ok t -> 0 <= rpos t -> src_rgb32_r rb rp c = get_r t c.
+Proof.
+  intros (Hr & Hg & Hb & Pr & Pg & Pb) (Br & Bg & Bb) P0 . unfold src_rgb32_r, get_r, max_r. subst rb rp.
+  destruct (src_rgb32_MAX_eq (rbits t) Br) as (E1 & _ & _). rewrite E1. set (P := rpos t) in *. unfold Casts.cast_u32_u8, wrap_u8, wrap_unsigned, as_u8. reflexivity.
+Qed.
+Lemma src_rgb32_g_eq t rb gb bb rp gp bp c : row_is t rb gb bb rp gp bp -> bits_ok t -> 0 <= gpos t -> src_rgb32_g gb gp c = get_g t c.
+Proof.
+  intros (Hr & Hg & Hb & Pr & Pg & Pb) (Br & Bg & Bb) P0 . unfold src_rgb32_g, get_g, max_g. subst gb gp.
+  destruct (src_rgb32_MAX_eq (gbits t) Bg) as (_ & E2 & _). rewrite E2. set (P := gpos t) in *. unfold Casts.cast_u32_u8, wrap_u8, wrap_unsigned, as_u8. reflexivity.
+Qed.
+Lemma src_rgb32_b_eq t rb gb bb rp gp bp c : row_is t rb gb bb rp gp bp -> bits_ok t -> 0 <= bpos t -> src_rgb32_b bb bp c = get_b t c.
+Proof.
+  intros (Hr & Hg & Hb & Pr & Pg & Pb) (Br & Bg & Bb) P0 . unfold src_rgb32_b, get_b, max_b. subst bb bp.
+  destruct (src_rgb32_MAX_eq (bbits t) Bb) as (_ & _ & E3). rewrite E3. set (P := bpos t) in *. unfold Casts.cast_u32_u8, wrap_u8, wrap_unsigned, as_u8. reflexivity.
+Qed.
+
+Lemma src_rgb32_mask_eq t rb gb bb rp gp bp :
+  row_is t rb gb bb rp gp bp -> bits_ok t -> fits t 4294967295 -> src_rgb32_RGB_MASK rb gb bb rp gp bp = rgb_mask t.
+Proof.
+  intros (Hr & Hg & Hb & Pr & Pg & Pb) (Br & Bg & Bb) (F1 & F2 & F3 & F4 & F5 & F6).
+  unfold src_rgb32_RGB_MASK, src_rgb32_R_MASK, src_rgb32_G_MASK, src_rgb32_B_MASK, rgb_mask.
+  unfold r_mask, g_mask, b_mask, max_r, max_g, max_b in *. subst rb gb bb rp gp bp.
+  destruct (src_rgb32_MAX_eq (rbits t) Br) as (E1 & _ & _). destruct (src_rgb32_MAX_eq (gbits t) Bg) as (_ & E2 & _).
+  destruct (src_rgb32_MAX_eq (bbits t) Bb) as (_ & _ & E3). rewrite E1, E2, E3.
+  pose proof (chan_max_range (rbits t)). pose proof (chan_max_range (gbits t)). pose proof (chan_max_range (bbits t)).
+  assert (0 <= Z.shiftl (chan_max (rbits t)) (rpos t)) by (apply Z.shiftl_nonneg; lia).
+  assert (0 <= Z.shiftl (chan_max (gbits t)) (gpos t)) by (apply Z.shiftl_nonneg; lia).
+  assert (0 <= Z.shiftl (chan_max (bbits t)) (bpos t)) by (apply Z.shiftl_nonneg; lia).
+  rewrite !Casts.cast_u8_u32_id by lia.
+  rewrite !Casts.shl_u32_id by (unfold min_u32, max_u32; lia). reflexivity.
 Qed.
 
 (* ---- conversion.rs macros ---- *)
